@@ -25,6 +25,7 @@ H = "CPP/Clipper2Lib/include/clipper2/"
 
 CONTROLS = {
     "C01": [
+        ("clamped intersection takes its x at the top of the scanbeam", E, "        if (abs_dx1 < abs_dx2) ip.x = TopX(e1, ip.y);\n        else ip.x = TopX(e2, ip.y);", "        if (abs_dx1 < abs_dx2) ip.x = TopX(e1, top_y);\n        else ip.x = TopX(e2, top_y);", "IP.on-edge"),
         ("wrong cell Intersection/Positive", E, "        return (e.wind_cnt2 > 0);", "        return (e.wind_cnt2 >= 0);", "T.closed"),
         ("Union treats EvenOdd like Positive", E, "      default:\n        return (e.wind_cnt2 == 0);\n      }\n      break;\n\n    case ClipType::Difference:",
          "      default:\n        return (e.wind_cnt2 <= 0);\n      }\n      break;\n\n    case ClipType::Difference:", "T.closed"),
@@ -38,6 +39,8 @@ CONTROLS = {
     ],
     "C01x": [],
     "C03": [
+        ("DoSplitOp inserts the crossing point although it equals prevOp", E, "    if (ip == prevOp->pt || ip == nextNextOp->pt)", "    if (ip == nextNextOp->pt)", "SPLIT.no-duplicate"),
+        ("point equality compares z as well", H + "clipper.core.h", "      return a.x == b.x && a.y == b.y;", "#ifdef USINGZ\n      return a.x == b.x && a.y == b.y && a.z == b.z;\n#else\n      return a.x == b.x && a.y == b.y;\n#endif", "T.point-equality"),
         ("closed path built without cleaning (D engine)", E,
          "        CleanCollinear(outrec);\n        //closed paths should always return a Positive orientation\n        if (BuildPathD(",
          "        //closed paths should always return a Positive orientation\n        if (BuildPathD(", "PRECEDE"),
@@ -45,10 +48,13 @@ CONTROLS = {
          "op2->pt == op2->next->pt || preserve_collinear_ ||", "T.removal"),
     ],
     "C04": [
+        ("MoveSplits overwrites the destination list", E, "    for (; orIter != fromOr->splits->end(); ++orIter)\n      toOr->splits->emplace_back(*orIter);", "    *toOr->splits = *fromOr->splits;", "SPLITS.append-only"),
         ("tree mode changes a non-ownership field", E, "        if (using_polytree_)\n          SetOwner(outrec, prevHotEdge->outrec);",
          "        if (using_polytree_)\n        {\n          SetOwner(outrec, prevHotEdge->outrec);\n          outrec->is_open = false;\n        }", "CONFINE"),
     ],
     "C05": [
+        ("BuildPathsD appends to what the caller's open vector held", E, "      solutionOpen->resize(0);\n      solutionOpen->reserve(outrec_list_.size());\n    }\n\n    // outrec_list_.size() is not static here because\n    // CleanCollinear below can indirectly add additional\n    // OutRec (via FixOutRecPts)",
+         "      solutionOpen->reserve(outrec_list_.size());\n    }\n\n    // outrec_list_.size() is not static here because\n    // CleanCollinear below can indirectly add additional\n    // OutRec (via FixOutRecPts)", "OUTPUT.reset"),
         ("Union keeps open parts inside one of the regions", E, "case ClipType::Union: return (!is_in_subj && !is_in_clip);",
          "case ClipType::Union: return (!is_in_subj || !is_in_clip);", "T.open"),
         ("toggle at subject edges instead of clip edges", E, "        if (edge_c->local_min->polytype == PathType::Subject)\n          return;",
@@ -82,6 +88,7 @@ CONTROLS = {
          "      for (OutPt2List &edge : edges_) edge.clear();\n    }\n    return result;", "LOOP"),
     ],
     "C09": [
+        ("segment scan starts where the pre-scan stopped", R, "      if (prev == Location::Inside) loc = Location::Inside;\n      i = 1;", "      if (prev == Location::Inside) loc = Location::Inside;", "SCAN.start"),
         ("a point above the rectangle classified as below it", R, "    else if (pt.y < rec.top) loc = Location::Top;", "    else if (pt.y < rec.top) loc = Location::Bottom;", "T.location"),
         ("a point on the bottom edge right of the rectangle counts as on the edge", R, "    else if (pt.y == rec.bottom && pt.x >= rec.left && pt.x <= rec.right)", "    else if (pt.y == rec.bottom && pt.x >= rec.left)", "T.location"),
         ("leaving the rectangle starts a new piece", R, "      else // path must be exiting rect\n      {\n        Add(ip);\n      }", "      else // path must be exiting rect\n      {\n        Add(ip, true);\n      }", "T.lines-dispatch"),
@@ -89,6 +96,8 @@ CONTROLS = {
         ("results_ not cleared per polyline", R, "          result.emplace_back(std::move(tmp));\n      }\n      results_.clear();\n\n      op_container_ = std::deque<OutPt2>();", "          result.emplace_back(std::move(tmp));\n      }\n\n      op_container_ = std::deque<OutPt2>();", "CLEAN"),
     ],
     "C10": [
+        ("BuildTreeD walks outrec_list_ with a range-for while CheckBounds can append to it", E, "    // BuildPathD below can indirectly add additional OutRec //#607\n    for (size_t i = 0; i < outrec_list_.size(); ++i)\n    {\n      OutRec* outrec = outrec_list_[i];",
+         "    for (OutRec* outrec : outrec_list_)\n    {", "ITER.stable"),
         ("empty path reaches OffsetOpenPath again", O, "\t\tif (pathLen == 0) continue; // nothing to offset (and no vertex to index)\n", "", "GUARD.nonempty"),
         ("allocation in a destructor", E, "  ClipperBase::~ClipperBase()\n  {\n    Clear();\n  }",
          "  ClipperBase::~ClipperBase()\n  {\n    Clear();\n    outrec_list_.reserve(16);\n  }", "ALLOC.noexcept"),
@@ -110,6 +119,8 @@ CONTROLS = {
         ("validator accepts one value too few", H + "clipper.core.h", "if (precision >= -CLIPPER2_MAX_DEC_PRECISION &&", "if (precision > -CLIPPER2_MAX_DEC_PRECISION &&", "R7.validator-table"),
     ],
     "C12": [
+        ("minima_list_sorted_ no longer invalidated by AddPaths", E, "    if (is_open) has_open_paths_ = true;\n    minima_list_sorted_ = false;", "    if (is_open) has_open_paths_ = true;", "SORTED.invalidate"),
+        ("has_open_paths_ reset by CleanUp", E, "    horz_join_list_.clear();\n  }", "    horz_join_list_.clear();\n    has_open_paths_ = false;\n  }", "CONFIG.preserved"),
         ("CleanUp forgets horz_join_list_", E, "    horz_join_list_.clear();\n  }", "  }", "CLEAN"),
         ("Clear keeps has_open_paths_", E, "    minima_list_sorted_ = false;\n    has_open_paths_ = false;", "    minima_list_sorted_ = false;", "CLEAR"),
         ("sel_ not reset", E, "    sel_ = nullptr;\n    succeeded_ = true;", "    succeeded_ = true;", "DBU"),
@@ -129,6 +140,7 @@ CONTROLS = {
          "\t\tfriend class ClipperBase;\n\t\tmutable LocalMinimaList minima_list_;\n\t\tstd::vector<Vertex*> vertex_lists_;\n\t\tvoid AddLocMin", "R2b.container-read-only"),
     ],
     "C15": [
+        ("CheckCallback keeps a proxy that is already bound", H + "clipper.engine.h", "\t\tvoid CheckCallback()\n\t\t{\n", "\t\tvoid CheckCallback()\n\t\t{\n\t\t\tif (ClipperBase::zCallback_) return;\n", "ZCB.rebound"),
         ("one crossing vertex no longer reaches SetZ", E, "      resultOp = AddOutPt(e2, pt);\n      if (zCallback_) SetZ(e1, e2, resultOp->pt);", "      resultOp = AddOutPt(e2, pt);", "Z.must-follow"),
         ("z influences x in the USINGZ build only", O, "\treturn Point64(pt.x + norm.x * delta, pt.y + norm.y * delta, pt.z);",
          "\treturn Point64(pt.x + norm.x * delta + (pt.z ? 1 : 0), pt.y + norm.y * delta, pt.z);", "ZERASE"),
@@ -148,10 +160,12 @@ CONTROLS = {
          "  ClipperOffset clip_offset( miter_limit,\n    arc_tolerance, false, reverse_solution);", "  ClipperOffset clip_offset( miter_limit,\n    arc_tolerance, reverse_solution);", "FORWARD.param"),
     ],
     "C18": [
+        ("wrap-around predecessor taken from the moved end marker", H + "clipper.core.h", "        prev = polygon.cend() - 1; //nb: NOT cend (since might equal first)", "        prev = cend - 1;", "WRAP.container-end"),
         ("portable sign logic compares hi words the wrong way", H + "clipper.core.h", "      else result = (ab.hi > cd.hi) ? 1 : -1;", "      else result = (ab.hi < cd.hi) ? 1 : -1;", "P.portable-sign"),
         ("partial sum can wrap", H + "clipper.core.h", "    const uint64_t x2 = hi(a) * lo(b) + hi(x1);", "    const uint64_t x2 = hi(a) * lo(b) + x1;", "P.multiply-no-wrap"),
     ],
     "C20": [
+        ("inner scan of SimplifyPath uses >= where the outer test uses >", H + "clipper.h", "        } while (curr != start && distSqr[curr] > epsSqr);", "        } while (curr != start && distSqr[curr] >= epsSqr);", "EPS.threshold"),
         ("corner test against the raw previous vertex", H + "clipper.h", "      if (!IsCollinear(*prevIt, *srcIt, *(srcIt + 1)))", "      if (!IsCollinear(*(srcIt - 1), *srcIt, *(srcIt + 1)))", "TRIM.last-kept"),
         ("SimplifyPath emits a computed vertex", H + "clipper.h", "      if (!flags[i]) result.emplace_back(path[i]);", "      if (!flags[i]) result.emplace_back(MidPoint(path[i], path[i]));", "MEMBER"),
     ],
